@@ -703,3 +703,49 @@ Lemma legacy_refuted :
                length (report (legacy_seq_run sh l)) = 1%nat /\
                report (seq_run sh l) = spec_report sh l.
 Proof. exists d3_shape, d3_word. vm_compute. repeat split. Qed.
+
+(* ------------------------------------------------ no end: one section per start *)
+Definition is_start (c : cline) : bool :=
+  match c_start c with Some _ => true | None => false end.
+Definition open_count (o : option osec) : nat :=
+  match o with Some _ => 1%nat | None => 0%nat end.
+
+Lemma scan_noend_count sh l : has_end sh = false ->
+  forall open ln cl fin n,
+    scan sh open ln l = (cl, fin, n) ->
+    (length cl + open_count fin
+     = open_count open + length (filter is_start l))%nat.
+Proof.
+  intros Hne. induction l as [|c r IH]; simpl; intros open ln cl fin n Hs.
+  - inversion Hs; subst. simpl. lia.
+  - destruct (on_line sh open ln c) as [out open1] eqn:Eon.
+    destruct (scan sh open1 (ln + 1) r) as [[rest fin1] n1] eqn:Esc.
+    inversion Hs; subst cl fin n; clear Hs.
+    specialize (IH _ _ _ _ _ Esc). rewrite app_length.
+    unfold on_line in Eon. rewrite Hne in Eon.
+    assert (Hst : is_start c = match c_start c with Some _ => true
+                                                  | None => false end)
+      by reflexivity.
+    rewrite Hst. clear Hst.
+    destruct open as [o|]; destruct (c_start c) as [v|];
+      inversion Eon; subst out open1; simpl in *; lia.
+Qed.
+
+Lemma sections_noend_count sh l : has_end sh = false ->
+  length (sections sh l) = length (filter is_start l).
+Proof.
+  intros Hne. unfold sections.
+  destruct (scan sh None 1 l) as [[cl fin] n] eqn:Esc.
+  pose proof (scan_noend_count sh l Hne _ _ _ _ _ Esc) as H. simpl in H.
+  rewrite app_length. unfold at_eof. rewrite Hne.
+  destruct fin; simpl in *; lia.
+Qed.
+
+(* a definition without an end reports exactly one section per line that
+   matches its start pattern *)
+Lemma report_noend_count sh l : has_end sh = false ->
+  length (report (seq_run sh l)) = length (filter is_start l).
+Proof.
+  intros Hne. rewrite sequence_exact_report. unfold spec_report.
+  rewrite map_length. apply sections_noend_count. exact Hne.
+Qed.
